@@ -125,6 +125,7 @@ type Evidence struct {
 func Run(ctx *Ctx, p *Property, level string) int {
 	start := time.Now()
 	var all []driver.ObResult
+	var pathStats []map[string]interface{}
 	for _, g := range p.Groups {
 		switch g.Layer {
 		case "D":
@@ -159,7 +160,9 @@ func Run(ctx *Ctx, p *Property, level string) int {
 				return 2
 			}
 			rep.Solve(ctx.Runner)
-			fmt.Printf("  %s: %d paths (%d ok, %d error, %d infeasible, %d outside the grammar)\n", fn, rep.Paths, rep.OkPaths, rep.ErrPaths, rep.Infeasible, rep.OutOfGrammar)
+			fmt.Printf("  %s: %d paths (%d ok, %d error, %d infeasible, %d outside the grammar, %d text-level only)\n", fn, rep.Paths, rep.OkPaths, rep.ErrPaths, rep.Infeasible, rep.OutOfGrammar, rep.TextOnly)
+			pathStats = append(pathStats, map[string]interface{}{"entry": fn, "paths": rep.Paths, "non_error_paths": rep.OkPaths, "error_paths": rep.ErrPaths, "infeasible": rep.Infeasible,
+				"outside_grammar": rep.OutOfGrammar, "text_level_only": rep.TextOnly, "semantic_clauses_checked": !g.NoVC})
 			for _, r := range rep.Results {
 				if g.Only != nil && !g.Only(r) {
 					continue
@@ -401,6 +404,7 @@ func Run(ctx *Ctx, p *Property, level string) int {
 	}
 	ev.Coverage = map[string]interface{}{
 		"callee_contracts_used":     callees,
+		"generator_paths":           pathStats,
 		"obligations":               total,
 		"discharged":                discharged,
 		"known_finding_obligations": knownN,
